@@ -335,15 +335,38 @@ func main() {
 		}
 	}
 
+	// --- helper predicates (close* variables that tear nothing down themselves, e.g. a factored-out disjunction)
+	// are expanded into the predicates that mention them
+	var expand func(cv string, depth int) ([]cmp, []string)
+	expand = func(cv string, depth int) ([]cmp, []string) {
+		cr := closeRows[cv]
+		if cr == nil || depth > 20 {
+			failf("close predicate %s is used but not defined", cv)
+			return nil, nil
+		}
+		cmps := append([]cmp(nil), cr.Cmp...)
+		var refs []string
+		for _, r := range cr.CloseRefs {
+			if _, real := closeToComp[r]; real {
+				refs = append(refs, r)
+			} else {
+				c2, r2 := expand(r, depth+1)
+				cmps = append(cmps, c2...)
+				refs = append(refs, r2...)
+			}
+		}
+		return cmps, refs
+	}
+
 	// --- join
 	var table []*row
 	for _, cv := range closeOrder {
 		comp, ok := closeToComp[cv]
 		if !ok {
-			failf("no teardown statement found for %s", cv)
-			continue
+			continue // helper predicate: expanded where it is used
 		}
-		cr := closeRows[cv]
+		cr := &row{CloseVar: cv}
+		cr.Cmp, cr.CloseRefs = expand(cv, 0)
 		r, ok := rows[comp]
 		if !ok {
 			failf("no construction block found for component %s (%s)", comp, cv)
